@@ -18,7 +18,7 @@ CLAIM = {
          "that every successful return has consumed input through the same object (base: Read::read_exact into a fixed non-empty buffer; Ok resp. "
          "Some(Ok) edge, located by following the result through `?`, context, is_some/is_none, match); relative seeks have a proved non-negative "
          "argument, the one absolute seek pair (with_pos) saves and restores the position. Sites that cannot be discharged are violations unless listed by exact key as a recorded finding "
-         "(known_findings.json) or as reviewed-safe with a reason (reviewed_safe.json).",
+         "(known_findings.json) or as reviewed-safe with a reason (reviewed_safe.json). (R16.6) every Err item of BufRead::lines() is propagated (no flatten/filter_map/.ok() on line results: a persistently failing reader would loop forever); integer Iterator::sum/product are overflow leaves. Premises evaluated with it: C02 R02.5/R02.6 (progress of the writer's jump-rewrite loop).",
  "note": "Not decided: termination of loops inside external crates and of the write_code retry loop beyond the reviewed set-growth argument (its two premises "
          "are C02 R02.5/R02.6), stack depth of non-recursive call chains, panics inside external crates other than the frozen "
          "list of panicking std/indexmap leaves, behaviour of const-generic instances other than the first one dumped per function (N only changes array "
